@@ -10,16 +10,9 @@ ASSUMPTIONS = ['harness/sched.py serialises the real threads (one synchronisatio
 
 
 def sessions(ctx, nsess, boards_choices, strategies_per):
-    r = lib.rng(ctx['seed'], 'C09')
-    out = []
-    for i in range(nsess):
-        nb = r.choice(boards_choices)
-        style = ['competitive', 'pass', 'short', None][i % 4]
-        base = dict(boards=sc.gen_boards(r, nb), arrivals=sc.four_arrivals(r, style=style))
-        strats = ['rr', 'low:main'] + r.sample(sc.STRATEGIES[1:], strategies_per - 2)
-        for st in strats:
-            out.append(dict(base, strategy=st, sched_seed=r.randint(0, 10 ** 6), want_schedule=True))
-    return out
+    """The session mixes of session_common (played / passed-out boards in both orders, several played boards, one-suit deals),
+    each under round-robin, "main runs only when nothing else can" and further strategies."""
+    return sc.gen_sessions(ctx, 'C09', nsess, boards_choices, strategies_per, must=('low:main',), extra=dict(want_schedule=True))
 
 
 def complete(sess, o):
